@@ -315,13 +315,14 @@ class Case:
             if f["kind"] == "reg":
                 ent["data"] = content(f["status"], sizes[k % len(sizes)], idx * 7 + k)
             self.files[p] = ent
+        self.wflags = ["-l", "-w"] if idx % 3 == 1 else ["-w"]      # -l -w must write the same way
         self.fmt = {}       # path -> formatted bytes (regular files that format)
         self.args = [p for p in sorted(self.files) if self.files[p]["arg"] == "explicit"]
         if any(f["arg"] == "walked" for f in self.files.values()):
             self.args.append("sub")
 
     def describe(self):
-        return {"umask": "%04o" % self.umask, "tmpdir": self.tmpvariant, "args": self.args,
+        return {"umask": "%04o" % self.umask, "tmpdir": self.tmpvariant, "args": self.wflags + self.args,
                 "files": [{"path": f["path"], "kind": f["kind"], "mode": "%04o" % f["mode"], "status": f["status"],
                            "arg": f["arg"], "size": len(f.get("data", b""))} for f in self.files.values()]}
 
@@ -424,12 +425,12 @@ class Runner:
             cmd = [self.shtrace, "-o", log]
             if inject:
                 cmd += ["-kill", "%s:%d" % inject]
-            cmd += ["--", self.shfmt, "-w"] + case.args
+            cmd += ["--", self.shfmt] + case.wflags + case.args
         else:
             cmd = STRACE + ["-o", log]
             if inject:
                 cmd += ["-e", "inject=%s:signal=KILL:when=%d" % inject]
-            cmd += [self.shfmt, "-w"] + case.args
+            cmd += [self.shfmt] + case.wflags + case.args
         try:
             rc, out, err = sl.run(cmd, cwd=cwd, env={"TMPDIR": tmpdir, "HOME": root}, umask=case.umask, timeout=120)
             text = open(log, errors="replace").read() if os.path.exists(log) else ""
@@ -820,7 +821,7 @@ def full_run_order(ck, cases, sel):
 
 
 JOBS = 4
-BUDGET = {"quick": {"full_s": 25, "full_max": 80, "crash_s": 45},
+BUDGET = {"quick": {"full_s": 20, "full_max": 80, "crash_s": 40},
           "thorough": {"full_s": 240, "full_max": 100000, "crash_s": 420}}
 
 
